@@ -292,7 +292,7 @@ pub fn run(opts: &Opts) -> i32 {
             steps: 12 + rng.usize(25),
             allow_cancel: rng.chance(1, 4),
             allow_backpressure: false,
-            allow_qos2: true,
+            allow_qos2: rng.chance(2, 3),
             allow_subscribe: true,
             allow_loops: rng.bool(),
             allow_ready: false,
